@@ -144,6 +144,12 @@ pub fn gen_c06(tier: Tier, seed: u64) -> Case {
             } else {
                 ops.push(g.batch(4, false));
             }
+            // now and then a keyspace is cleared right before the next commit (a clear is a
+            // commit of its own and publishes a sequence number of its own)
+            if kind == DbKind::Plain && g.r.chance(1, 5) {
+                let ks = g.live_ks().unwrap();
+                ops.push(Op::Clear { ks });
+            }
         }
         threads.push(ops);
     }
